@@ -15,7 +15,8 @@ from harness.util import call, req, fmt
 
 PID = "C18"
 LEVEL = "exploration"
-RULE = ("lroo: every binary series of length 1..16 (thorough: 1..20) enumerated through the compiled gufunc "
+RULE = ("[seventh seeded round] croo on long records (130..1000 steps, current run of 127..1000 members) stored in uint8/int8/int16/int32/int64 cubes, rotated / reversed stored order. " +
+        "lroo: every binary series of length 1..16 (thorough: 1..20) enumerated through the compiled gufunc "
         "and through DataArray.hdc.algo.lroo(); generated run-length-encoded series up to 1000 steps (runs "
         "of 200..1000 ones at start/middle/end), series over {0,1,2,255}. croo: every binary series of length "
         "n<=6 under every permutation of the stored time order, generated permutations up to n=60, dims in "
@@ -100,9 +101,9 @@ def sub_lroo_accessor(case):
     return None
 
 
-def _croo_da(rows, stored_order, dims, axis="fancy"):
+def _croo_da(rows, stored_order, dims, axis="fancy", dtype="int64"):
     """rows: chronological series per pixel; stored_order: permutation p, stored[k] = chrono[p[k]]."""
-    arr = np.array(rows, dtype="int64")
+    arr = np.array(rows, dtype=dtype)
     nt = arr.shape[1]
     t = pd.date_range("2001-03-01", periods=nt, freq="10D")
     p = np.array(stored_order)
@@ -119,7 +120,14 @@ def _croo_da(rows, stored_order, dims, axis="fancy"):
 
 def sub_croo(case):
     rows = case["pixels"]
-    da = _croo_da(rows, case["order"], case.get("dims", ["time", "y", "x"]), case.get("axis", "fancy"))
+    if case.get("rle") is not None:
+        # long series written as runs [[value, count], ...] per pixel; the stored order is a rotation / reversal of the chronological one
+        rows = [[v for v, c in px for _ in range(c)] for px in case["rle"]]
+        nt = len(rows[0])
+        k = int(case.get("rot", 0)) % nt
+        order = list(range(k, nt)) + list(range(k))
+        case = dict(case, order=order[::-1] if case.get("rev") else order)
+    da = _croo_da(rows, case["order"], case.get("dims", ["time", "y", "x"]), case.get("axis", "fancy"), case.get("dtype", "int64"))
     res = call("hdc.algo.croo", lambda: da.hdc.algo.croo())
     req("time" not in res.dims, "croo keeps the time dim: %s" % (res.dims,), "croo dims")
     res = res.transpose("y", "x").values.reshape(len(rows))
@@ -355,6 +363,35 @@ def run(ctx):
         sub_croo(case)
 
     ctx.given("croo", croo_strategy(), ctx.n(150, 2500), fn=f_croo)
+
+    # 5a. croo on long records: the current run may be longer than any narrow integer type holds (127 / 255 / 32767 are not limits of
+    # the property), for 0/1 cubes stored in narrow integer dtypes as well
+    @st.composite
+    def croo_long(draw):
+        nt = draw(st.sampled_from([130, 200, 256, 257, 300, 520, 1000]))
+        pxs = []
+        for _ in range(draw(st.integers(1, 2))):
+            last = draw(st.sampled_from([127, 128, 129, 255, 256, 257, 300, nt, nt - 1, 1, 0]))
+            last = min(last, nt)
+            head = nt - last
+            runs = []
+            while head > 0:
+                c = min(head, draw(st.integers(1, 140)))
+                runs.append([1 if (len(runs) % 2 == 1) else 0, c])
+                head -= c
+            if runs and runs[-1][0] == 1:
+                runs[-1][0] = 0  # the cell before the final run is a zero, so the final run has exactly `last` members
+            if len(runs) >= 2 and runs[-2][0] == 0:
+                runs[-2][0] = 1
+            pxs.append(runs + ([[1, last]] if last else []))
+        return {"pixels": None, "rle": pxs, "rot": draw(st.integers(0, 999)), "rev": draw(st.booleans()), "dims": list(draw(st.permutations(["time", "y", "x"]))),
+                "dtype": draw(st.sampled_from(["uint8", "int8", "int16", "int32", "int64", "uint8"]))}
+
+    def f_croo_long(case):
+        ctx.rec.case("croo", case, nontrivial=True, cls=["long_record", "dtype:" + case["dtype"]])
+        sub_croo(case)
+
+    ctx.given("croo", croo_long(), ctx.n(60, 800), fn=f_croo_long)
 
     # 5b. big same-shaped rasters processed one after the other; results compared at the end
     def f_al(case):
